@@ -317,3 +317,66 @@ example :
   decide +kernel
 
 end VOPy.C13
+
+/-! # EXACTNESS — the relation (R) determines the answer
+
+`specOk` is the relation the harness evaluates on the index list returned by the real
+`get_pareto_set`.  The theorems below show that (R) leaves no freedom beyond the choice of a
+representative among mutually dominating (for a pointed cone: equal) elements — so "the code's output
+satisfies (R)" means "the code returned *the* Pareto set", for every finite input. -/
+namespace VOPy.C13
+open VOPy VOPy.Pareto
+
+variable {α : Type}
+
+/-- **Uniqueness up to equivalent representatives** (no hypothesis on the relation).  If two index
+lists both satisfy (R) for the same input, every element kept by the first is matched by an element
+kept by the second that dominates it and is dominated by it. -/
+theorem specOk_unique_up_to_equiv (dom : α → α → Bool) (xs : List α) (idx₁ idx₂ : List Nat)
+    (h₁ : specOk dom xs idx₁ = true) (h₂ : specOk dom xs idx₂ = true) :
+    ∀ i ∈ idx₁, ∀ a, xs[i]? = some a →
+      ∃ j ∈ idx₂, ∃ b, xs[j]? = some b ∧ dom a b = true ∧ dom b a = true := by
+  have H₁ := (specOk_iff dom xs idx₁).mp h₁
+  have H₂ := (specOk_iff dom xs idx₂).mp h₂
+  intro i hi a ha
+  have hax : a ∈ xs := List.mem_of_getElem? ha
+  obtain ⟨j, hj, b, hb, hba⟩ := H₂.cover a hax
+  have hbx : b ∈ xs := List.mem_of_getElem? hb
+  exact ⟨j, hj, b, hb, H₁.maximal i hi a ha b hbx hba, hba⟩
+
+/-- **The kept values are unique for a partial order** (antisymmetric on the input, e.g. a pointed
+cone): any two index lists satisfying (R) keep exactly the same set of values.  In particular the
+values kept by the real code (whenever its output passes (R)) are the values kept by the model. -/
+theorem specOk_values_unique (dom : α → α → Bool) (xs : List α) (idx₁ idx₂ : List Nat)
+    (hanti : ∀ a ∈ xs, ∀ b ∈ xs, dom a b = true → dom b a = true → a = b)
+    (h₁ : specOk dom xs idx₁ = true) (h₂ : specOk dom xs idx₂ = true) (v : α) :
+    (∃ i ∈ idx₁, xs[i]? = some v) ↔ (∃ j ∈ idx₂, xs[j]? = some v) := by
+  constructor
+  · rintro ⟨i, hi, hv⟩
+    obtain ⟨j, hj, b, hb, hab, hba⟩ := specOk_unique_up_to_equiv dom xs idx₁ idx₂ h₁ h₂ i hi v hv
+    have : v = b := hanti v (List.mem_of_getElem? hv) b (List.mem_of_getElem? hb) hab hba
+    exact ⟨j, hj, this ▸ hb⟩
+  · rintro ⟨i, hi, hv⟩
+    obtain ⟨j, hj, b, hb, hab, hba⟩ := specOk_unique_up_to_equiv dom xs idx₂ idx₁ h₂ h₁ i hi v hv
+    have : v = b := hanti v (List.mem_of_getElem? hv) b (List.mem_of_getElem? hb) hab hba
+    exact ⟨j, hj, this ▸ hb⟩
+
+/-- **Anything passing (R) keeps the model's values.**  For a reflexive, transitive, antisymmetric
+relation, an index list accepted by (R) keeps exactly the values `Pareto.fast` keeps. -/
+theorem specOk_values_eq_fast (dom : α → α → Bool)
+    (hrefl : ∀ a, dom a a = true)
+    (htrans : ∀ a b c, dom a b = true → dom b c = true → dom a c = true)
+    (hanti : ∀ a b, dom a b = true → dom b a = true → a = b)
+    (xs : List α) (idx : List Nat) (h : specOk dom xs idx = true) (v : α) :
+    (∃ i ∈ idx, xs[i]? = some v) ↔ (∃ j ∈ fast dom xs, xs[j]? = some v) :=
+  specOk_values_unique dom xs idx (fast dom xs) (fun a _ b _ => hanti a b) h
+    (specOk_fast dom hrefl htrans xs) v
+
+/-- non-vacuity: with a duplicated optimum two different index lists pass (R) — `[0,1,4]` and
+`[0,3,4]` keep different positions but the same values -/
+example :
+    specOk (dominates (identMat 2)) [[1,2],[2,1],[0,0],[2,1],[3,0],[1,1]] [0,1,4] = true ∧
+    specOk (dominates (identMat 2)) [[1,2],[2,1],[0,0],[2,1],[3,0],[1,1]] [0,3,4] = true := by
+  constructor <;> decide +kernel
+
+end VOPy.C13
